@@ -10,9 +10,10 @@
 EXTENDS FLexer, FGrammar, TLC
 CONSTANT K
 
-\* code points; -1 stands for the invalid byte 0xFF
-Chars == {97, 39, 34, 92, 10, 13, 9, 0, 8, 12, 11, 49, 110, 233, 20013, 38745, 65509, 8232, 133, 120, 117, -1}
-Utf8(c) == IF c = -1 THEN <<255>> ELSE Encode(c)
+\* code points; a negative number -b stands for the stray byte b (invalid UTF-8): 0xFF never occurs in UTF-8, 0x85 is a
+\* continuation byte without its lead (read as Latin-1 it would be U+0085, a line break)
+Chars == {97, 39, 34, 92, 10, 13, 9, 0, 8, 12, 11, 49, 110, 233, 20013, 38745, 65509, 8232, 133, 120, 117, -255, -133}
+Utf8(c) == IF c < 0 THEN <<-c>> ELSE Encode(c)
 
 HexLo == <<48,49,50,51,52,53,54,55,56,57,97,98,99,100,101,102>>
 HexUp == <<48,49,50,51,52,53,54,55,56,57,65,66,67,68,69,70>>
@@ -25,8 +26,8 @@ SimpleEsc(c) == CASE c = 39 -> <<92, 39>> [] c = 34 -> <<92, 34>> [] c = 92 -> <
 
 \* the equivalent spellings of character c inside a literal delimited by quote q: <<literal bytes, "ok"|"bad">>
 Forms(c, q) ==
-  (IF c # q /\ c # 92 THEN {<<Utf8(c), IF c # -1 /\ IsLB(c) THEN "bad" ELSE "ok">>} ELSE {})     \* verbatim (a raw line break opens the literal)
-  \cup (IF c # -1 /\ SimpleEsc(c) # <<>> THEN {<<SimpleEsc(c), "ok">>} ELSE {})
+  (IF c # q /\ c # 92 THEN {<<Utf8(c), IF c >= 0 /\ IsLB(c) THEN "bad" ELSE "ok">>} ELSE {})     \* verbatim (a raw line break opens the literal)
+  \cup (IF c >= 0 /\ SimpleEsc(c) # <<>> THEN {<<SimpleEsc(c), "ok">>} ELSE {})
   \cup (IF c >= 0 /\ c < 256 THEN {<<<<92, 120>> \o Hex2(c, HexLo), "ok">>, <<<<92, 120>> \o Hex2(c, HexUp), "ok">>} ELSE {})
   \cup (IF c >= 0 /\ c < 65536 THEN {<<<<92, 117>> \o Hex4(c, HexLo), "ok">>, <<<<92, 117>> \o Hex4(c, HexUp), "ok">>} ELSE {})
 
